@@ -411,8 +411,22 @@ func c10DeletedPure(fr *c10Frame, d ast.Expr) (okMsg, bad, und string) {
 			if lit, ok := rhs.(*ast.CompositeLit); ok && len(lit.Elts) == 0 {
 				continue
 			}
+			// taken from a pool, or cut to length 0: where the collection starts;
+			// that it holds nothing of an earlier call then is R10's obligation
+			if _, isGet := c10GetExpr(info, rhs); isGet {
+				continue
+			}
+			if sl, ok := rhs.(*ast.SliceExpr); ok && kit.ObjOf(info, sl.X) == obj && sl.Low == nil && sl.High != nil {
+				if c, isC := kit.ConstInt(info, sl.High); isC && c == 0 {
+					continue
+				}
+			}
 			call, ok := rhs.(*ast.CallExpr)
-			if b, isB := kit.Callee(info, call).(*types.Builtin); !ok || !isB || b.Name() != "append" || kit.ObjOf(info, call.Args[0]) != obj {
+			if !ok {
+				und = fmt.Sprintf("%s at %s", f.Str(as), f.At(as))
+				continue
+			}
+			if b, isB := kit.Callee(info, call).(*types.Builtin); !isB || b.Name() != "append" || kit.ObjOf(info, call.Args[0]) != obj {
 				und = fmt.Sprintf("%s at %s", f.Str(as), f.At(as))
 				continue
 			}
